@@ -278,3 +278,20 @@ void h_AlignBuffer(void) {
   CANARY();
 }
 #endif
+
+#ifdef UNIT_Lifecycle
+void h_move_assign(void) {
+  MemoryPoolAllocator A, B; pool_model_t ma = make_pool_list(&A); pool_model_t mb = make_pool_list(&B);      /* two unrelated pools */
+  size_t rca = ma.sh->refcount, rcb = mb.sh->refcount; _Bool owna = ma.sh->ownBuffer;
+  ghost_free_count = 0;
+  (void)MemoryPoolAllocator_move_assign(&A, &B);
+  VASSERT(A.shared_ == mb.sh && B.shared_ == NULL, "C16.move.adopt: the target takes over the source's pool and the source is left empty");
+  VASSERT(mb.sh->refcount == rcb, "C16.move.count: moving does not change the owner count of the moved pool");
+  VASSERT(rca > 1 ? (ghost_free_count == 0 && ma.sh->refcount == rca - 1) : ghost_free_count == (int)ma.extra + (owna ? 1 : 0),
+          "C16.move.release: the target's previous pool loses one owner and is released exactly when that was the last one");
+  ghost_free_count = 0;
+  MemoryPoolAllocator_dtor(&B);
+  VASSERT(ghost_free_count == 0, "C16.move.source: destroying the moved-from allocator releases nothing");
+  CANARY();
+}
+#endif
